@@ -20,6 +20,7 @@ PROP = {
     "assumptions": [
         "transaction ids are unique per transaction (HAProxy unique-id); two *first* look-ups of the same id never race (the request is handled before its response exists)",
         "retention period = 30 s as the statement's quantifier says; it is not read from the code. At exactly request+30 s, and later, the pinned version, the current one or any version created in between is accepted (statement silent); nothing else, in particular never the empty fallback",
+        "in one history of three every revision of policies.yaml is deployed with the same modification time (cp -p, rsync -t, archives, reproducible artefacts; revisions v1..v9 have the same size anyway): a reload must still read the file",
         "a reload counts as having happened iff the accessor call reported success; revert restores the content of the last policies file that was read successfully (with / without its diagnosis plugins)",
         "versions are compared by content (marker, presence of diagnosis plugins), not by pointer: two versions with identical content are interchangeable for the statement",
         "the look-up key is re-stated from routing/messages_handler.go and runner/diagnosis_worker.go (config.TxnID(args.ID) on request, response and diagnosis task); the accessor-level units use that re-statement; the unit TestMessageHandlersE2E drives the unexported handlers themselves through routing.Handler of a policy-mode HandlingDataManager (request and response messages of retried attempts whose id differs from the sequence id, reloads in between), the diagnosis worker's look-up is exercised by the unit TestDiagnosisWorkerVersions (real runner.DiagnosisWorker, dispatcher, plugins and HAR exporter on the real clock; the worker starts at a generated point of the history so that finished transactions queue up; every version declares the HAR diagnosis for its own subset of three endpoints with or without obfuscation, and the exported record of a transaction - present or not, obfuscated or not - must be that of the version current at its request; records are awaited up to 20 s)",
